@@ -26,6 +26,11 @@ var c13Exceptions = []errException{{
 	reason: "the inner closure assigns the enclosing err, and the unconditional ReadBytes that follows on the same (sticky-error) reader fails on every truncated prefix; no truncation makes it misbehave",
 }}
 
+var c14Exceptions = []errException{
+	{fn: "(*column.Collection).recorderOpen", callee: "(*commit.Log).Close", reason: "best-effort cleanup of the temporary log on the path that already returns an error"},
+	{fn: "(*column.Collection).recorderOpen", callee: "os.Remove", reason: "best-effort cleanup of the temporary file on the path that already returns an error"},
+}
+
 func snapshotFns(n string) bool {
 	return strings.Contains(n, ").Snapshot") || strings.HasPrefix(n, "(*column.Collection).writeState") ||
 		strings.HasPrefix(n, "(*commit.Buffer).PutBitmap") || strings.HasPrefix(n, "(commit.Chunk).Range") ||
@@ -97,7 +102,6 @@ func init() {
 			ruleUnits(r, "C04.units", "filters, iteration and aggregates index per-block storage with block-relative offsets and hand absolute offsets to callbacks and the cursor", 12, filterFns)
 			ruleUnitDefs(r)
 			ruleL3f(r, only("(*column.Txn).With", "(*column.Txn).Union", "(*column.Txn).Range", "(column.rdNumber[T])."), 10)
-			ruleL2(r)
 		}})
 	register(&PropSpec{ID: "C05",
 		Explanation: "Buffer/commit/log round-trip — structural skeleton only (most of this property is about byte values and is not decidable statically). (C05.flags) writers and reader agree on header flags, size tags and payload widths, decided per arm; (C05.varint) writer loop and the reader's five stages agree; (C05.header) block headers written on block change, reader restarts the offset chain from them; (C05.copy) clones and resets cover every field, clones share no slice; (C01.width) Put/read/Swap widths per kind, swap retags as Put; (C03.order) replay never appends to the buffer." + staticNote,
@@ -211,7 +215,7 @@ func init() {
 		Run: func(r *Report) {
 			ruleSnapshotCleanup(r)
 			ruleErrorFlow(r, "C14.err", "no error on the snapshot write path (state writer and its closures, buffer serialisation, log copy, recorder open) is discarded", 8,
-				[]string{"(*column.Collection).Snapshot", "(*column.Collection).writeState", "(*commit.Log).Copy", "(*commit.Buffer).WriteTo", "(*column.Collection).recorderOpen"}, nil)
+				[]string{"(*column.Collection).Snapshot", "(*column.Collection).writeState", "(*commit.Log).Copy", "(*commit.Buffer).WriteTo", "(*column.Collection).recorderOpen"}, c14Exceptions)
 		}})
 	register(&PropSpec{ID: "C15",
 		Explanation: "Change stream exactly-once, per-block ordered, identifiable — structural part. (C15.once) the commit callback's flow graph is evaluated under all 16 valuations of its guards: one logger append iff rows changed or a column was updated, one callback per dirty block; (C15.dirty) dirty blocks come from the buffers' headers; (C02.effects emit/*) appends only below commit; (L5.id) ids drawn under the exclusive latch from one atomic counter ⇒ per block id order = apply order = emission order (with L5.emit); (C06.emitfields) emitted fields; (C05.copy) Commit.Clone keeps the id." + staticNote,
@@ -235,7 +239,7 @@ func init() {
 			ruleSortArms(r)
 			ruleSortScan(r)
 			ruleCursor(r)
-			ruleAlias(r)
+			ruleAlias(r, "sortindex")
 			ruleCommitOrder(r, true, false)
 		}})
 	register(&PropSpec{ID: "C17",
